@@ -72,6 +72,7 @@ def obligations(tier):
     for part in ("0,0", "0,1", "1,0", "1,1"):
         obs.append(Ob("C03.flags2", F, "flags2", 400, part=part, what=w + " (muted still scores; unscored / suppressed do not)"))
     obs.append(Ob("C03.percent_forms", F, "percent_forms", 120, what="fractional percents: n copies of +2.5% / 12.5% / -0.5% / +33% / +0.25 / +100% sum exactly (N% == N/100)"))
+    obs.append(Ob("C03.label_suppress", F, "label_suppress", 300, what="suppression by label (label-only and category+label, mixed-case labels): exactly the feedback carrying that label stops scoring"))
     obs.append(Ob("C03.score_reach", F, "score_reach", 60, expect="refute", what="twin: untriggered negative awards next to a triggered one"))
     if tier == "thorough":
         for trip in ["1,5,3", "3,6,7", "2,4,0", "5,5,1", "7,3,6", "0,1,5", "4,4,4", "6,2,3", "1,1,1", "3,5,2", "7,0,6", "2,6,4"]:
